@@ -207,14 +207,19 @@ def gen_C11(rng, tier):
 CONTENTS = ["package p;interface A{void f(in B b);}", "package p;parcelable B{int x;}",
             "package p;import p.B;interface A{B g();}", "package p; interface {",
             "package p;parcelable A{int y;}", "package q;import p.A;import p.B;interface U{void f(A a, B b, out A c);}",
-            "package p;enum B{X}"]
+            "package p;enum B{X}",
+            # same tree (same byte layout), different syntax diagnostics; no tree at all, with different errors
+            "package p;interface A{/*xxxxxx*/void f(in B b);}", "package p;interface A{int ;     void f(in B b);}",
+            "", "}", "package p;"]
+BOM_FILE = "\ufeffpackage p;parcelable B{int x;}"
 
 
 def gen_C12(rng, tier):
     cases = []
     ids = ["i0", "i1", "i2"]
     alphabet = [("add", i, c) for i in ids for c in CONTENTS] + [("remove", i) for i in ids] + [("validate",)] + \
-               [("addfile", i, "ok", CONTENTS[1]) for i in ids[:1]] + [("addfile", ids[0], "missing"), ("addfile", ids[1], "bad", b"\xff\xfepackage")]
+               [("addfile", i, "ok", CONTENTS[1]) for i in ids[:1]] + [("addfile", ids[0], "missing"), ("addfile", ids[1], "bad", b"\xff\xfepackage"),
+                ("addfile", ids[0], "ok", BOM_FILE)]
     maxlen = 2 if tier == "quick" else 3
     k = 0
     import itertools
@@ -234,7 +239,7 @@ def gen_C12(rng, tier):
             elif r < 0.9:
                 ops.append(("validate",))
             elif r < 0.95:
-                ops.append(("addfile", rng.choice(ids), "ok", rng.choice(CONTENTS)))
+                ops.append(("addfile", rng.choice(ids), "ok", rng.choice(CONTENTS + [BOM_FILE])))
             else:
                 ops.append(("addfile", rng.choice(ids), "bad", b"\xff\xfe"))
         cases.append({"name": f"sp{i}", "ops": ops})
@@ -299,6 +304,12 @@ def gen_C13(rng, tier):
             d2 = gen.gen_doc(rng, d["package"], d["name"], d["kind"], None, [rng.choice(["x.Y", "p.Foo"])] if rng.random() < 0.5 else [])
             rew.append((fid, gen.render(gen.tokens(d2), rng, rng.choice(["space", "wild"]))[0]))
         cases.append(nm(f"c{i}_p2", [("t", tgt[1])] + rew))
+        # p3: a malformed member (recovered syntax error) inside the body of every other file: same key, same kind, still a tree
+        bad = []
+        for (fid, d), (_, text) in others:
+            junk = "= 3, " if d["kind"] == "enum" else "int ; "
+            bad.append((fid, text.replace("{", "{ " + junk, 1)))
+        cases.append(nm(f"c{i}_p3", [("t", tgt[1])] + bad))
         # control: change the kind of an imported file (result MAY change; only counted)
         ctl = []
         for (fid, d), (_, text) in others:
@@ -335,7 +346,7 @@ def post_C13(cases, xs):
     for name, v in h.items():
         if name.endswith("_base"):
             k = name[:-5]
-            for suffix in ("_p0", "_p1", "_p2"):
+            for suffix in ("_p0", "_p1", "_p2", "_p3"):
                 o = h.get(k + suffix)
                 if o is None:
                     continue
